@@ -249,7 +249,7 @@ def _trunc_cases(res, rng, per_group):
         aa, bb = t._truncated_interval(a, b)
         stmt = f"truncated_interval {rlit(l)} {rlit(r)} {rlit(a)} {rlit(b)} = ({rlit(aa)}, {rlit(bb)})"
         proof = ("rewrite truncated_interval_eq. unfold Rmax, Rmin. "
-                 "repeat match goal with |- context [Rle_dec ?x ?y] => destruct (Rle_dec x y); try lra end; f_equal; lra.")
+                 "repeat match goal with |- context [Rle_dec ?x ?y] => destruct (Rle_dec x y); try (exfalso; lra) end; f_equal; lra.")
         cases.append(Case(("trunc", l, r, a, b), stmt, proof, dict(model="truncated_interval", l=l, r=r, a=a, b=b, impl=[aa, bb])))
         res.count(("coq-trunc", l, r, a, b), kind="coq truncated_interval")
     return cases
